@@ -1,4 +1,4 @@
-#!/usr/bin/env python3
+#!/venv/bin/python
 """Rewrites anchors.json (AST fingerprints of the anchored files) from /repo's current tree.
 Run only on a tree on which every check has just passed."""
 import importlib, json, os, sys
